@@ -343,4 +343,110 @@ theorem sum_map_eraseIdx_add {α : Type} (g : α → Nat) : ∀ (l : List α) (i
 
 end glue
 
+/-! ## `ConvexPolygon::from_convex_polyline`: the pruned point list is a sub-list of the input -/
+section prune
+variable {K : Type} [Num K]
+
+private theorem take_succ_set {α : Type} (L : List α) (m : Nat) (v : α) (h : m < L.length) :
+    (L.set m v).take (m + 1) = L.take m ++ [v] := by
+  rw [List.take_set, List.take_succ_eq_append_getElem h, List.set_append_right _ _ (by simp)]
+  have : m - min m L.length = 0 := by rw [Nat.min_eq_left h.le]; omega
+  simp [this]
+
+theorem pruneLoop_spec (n : Nat) (eps : K) (orig : List (V2 K)) (horig : orig.length = n) :
+    ∀ (k : Nat) (points normals : Array (V2 K)) (nr : Nat),
+      points.size = n → normals.size = n → k + 1 ≤ n → nr ≤ n - k →
+      (points.toList.take (n - k - nr)).Sublist (orig.take (n - k)) →
+      (∀ m, n - k ≤ m → m < n → points.toList[m]? = orig[m]?) →
+      (pruneLoop n eps k points normals nr).1.size = n ∧ (pruneLoop n eps k points normals nr).2.1.size = n ∧
+      (pruneLoop n eps k points normals nr).2.2 ≤ n ∧
+      ((pruneLoop n eps k points normals nr).1.toList.take (n - (pruneLoop n eps k points normals nr).2.2)).Sublist orig := by
+  intro k
+  induction k with
+  | zero =>
+    intro points normals nr hp hn _ hnr hsub _
+    simp only [pruneLoop, Nat.sub_zero] at hsub ⊢
+    refine ⟨hp, hn, hnr, ?_⟩
+    rw [← horig, List.take_length] at hsub
+    rw [← horig]; exact hsub
+  | succ k ih =>
+    intro points normals nr hp hn hk hnr hsub htail
+    unfold pruneLoop
+    simp only
+    have hi2 : n - (k + 1) + 1 = n - k := by omega
+    by_cases hc : 1 - eps < (pt normals (n - (k + 1) - 1)).dot (pt normals (n - (k + 1)))
+    · rw [if_pos hc]
+      refine ih points normals (nr + 1) hp hn (by omega) (by omega) ?_ (fun m h1 h2 => htail m (by omega) h2)
+      have e : n - k - (nr + 1) = n - (k + 1) - nr := by omega
+      rw [e]
+      refine hsub.trans ?_
+      rw [← hi2]
+      exact List.take_sublist_take_left (by omega)
+    · rw [if_neg hc]
+      have hlt : n - (k + 1) < n := by omega
+      have hv : pt points (n - (k + 1)) = orig[n - (k + 1)]'(by omega) := by
+        have := htail (n - (k + 1)) (le_refl _) hlt
+        simp only [pt, Array.getD_eq_getD_getElem?]
+        rw [← Array.getElem?_toList, this, List.getElem?_eq_getElem (by omega)]
+        rfl
+      refine ih _ _ nr (by simp [hp]) (by simp [hn]) (by omega) (by omega) ?_ ?_
+      · have e : n - k - nr = (n - (k + 1) - nr) + 1 := by omega
+        rw [e, Array.toList_setIfInBounds, take_succ_set _ _ _ (by simp [hp]; omega), hv, ← hi2,
+          List.take_succ_eq_append_getElem (by omega)]
+        exact hsub.append (List.Sublist.refl _)
+      · intro m h1 h2
+        rw [Array.toList_setIfInBounds, List.getElem?_set_ne (by omega)]
+        exact htail m (by omega) h2
+
+/-- **the points kept by `from_convex_polyline` are a sub-list of its input** (same cyclic order), at least three, with
+one normal per point -/
+theorem fromConvexPolyline_spec (points rp rn : Array (V2 K)) (h : fromConvexPolyline points = some (rp, rn)) :
+    rp.toList.Sublist points.toList ∧ 3 ≤ rp.size ∧ rn.size = rp.size := by
+  unfold fromConvexPolyline at h
+  by_cases h0 : points.size = 0
+  · simp [h0] at h
+  · rw [if_neg h0] at h
+    simp only at h
+    cases hnm : polylineNormals points points.size #[] with
+    | none => simp [hnm] at h
+    | some normals =>
+      simp only [hnm] at h
+      -- size of the normal buffer
+      have hns : ∀ (k : Nat) (acc out : Array (V2 K)), polylineNormals points k acc = some out →
+          out.size = acc.size + k := by
+        intro k
+        induction k with
+        | zero => intro acc out hh; simp [polylineNormals] at hh; subst hh; simp
+        | succ k ih =>
+          intro acc out hh
+          unfold polylineNormals at hh
+          simp only at hh
+          split at hh
+          · cases hh
+          · have := ih _ _ hh; simp at this; omega
+      have hnsz : normals.size = points.size := by have := hns _ _ _ hnm; simpa using this
+      set nr0 : Nat := if 1 - Num.sqrt (C10.eps : K) < (pt normals 0).dot (pt normals (normals.size - 1)) then 1 else 0
+        with hnr0
+      have hnr0le : nr0 ≤ 1 := by rw [hnr0]; split <;> omega
+      have hspec := pruneLoop_spec points.size (Num.sqrt (C10.eps : K)) points.toList (by simp)
+        (points.size - 1) points normals nr0 rfl hnsz (by omega) (by omega)
+        (by
+          have e : points.size - (points.size - 1) = 1 := by omega
+          rw [e]
+          exact (List.take_sublist_take_left (by omega)))
+        (fun m _ _ => rfl)
+      set r := pruneLoop points.size (Num.sqrt (C10.eps : K)) (points.size - 1) points normals nr0 with hr
+      obtain ⟨s1, s2, s3, s4⟩ := hspec
+      split at h
+      · rename_i hlen
+        simp only [Option.some.injEq, Prod.mk.injEq] at h
+        obtain ⟨rfl, rfl⟩ := h
+        refine ⟨?_, ?_, ?_⟩
+        · simpa using s4
+        · have := hlen; simp at this ⊢; omega
+        · simp [s1, s2]
+      · cases h
+
+end prune
+
 end C16
